@@ -2,6 +2,7 @@ import GV.Proofs.Bits32
 import GV.Proofs.Div32
 import GV.Proofs.CaseMap
 import GV.Proofs.NoSyncRefine
+import GV.Proofs.NoSyncMap
 import GV.Proofs.FloatRound
 import GV.Model.Atomic
 
@@ -178,6 +179,26 @@ theorem nosync_step_refines (s : State) (t : Spec) (op : Op) (h : GV.Proofs.NoSy
     ∃ p ∈ GV.Spec.SyncSeq.step t op, GV.Proofs.NoSyncRefine.Matches p.1 (GV.NoSync.step s op).2 ∧
       (p.1.terminal = true ∨ GV.Proofs.NoSyncRefine.R (GV.NoSync.step s op).1 p.2) :=
   GV.Proofs.NoSyncRefine.step_refines s t op h
+
+/-- nosync.Map against the abstract map `Key → Option Val` (a stored nil value, code 0, is `some 0`, i.e. PRESENT): for
+    EVERY history of Load / Store / LoadOrStore / Delete from the empty map, every operation returns what the abstract
+    map returns -/
+theorem nosync_map_refines_absmap (ops : List GV.Proofs.NoSyncMap.MapOp) :
+    run {} (ops.map GV.Proofs.NoSyncMap.MapOp.toOp) = GV.Proofs.NoSyncMap.absRun (fun _ => none) ops :=
+  GV.Proofs.NoSyncMap.run_refines {} (fun _ => none) GV.Proofs.NoSyncMap.rel_init ops
+
+/-- `Store(k, nil)` then `LoadOrStore(k, v)`: the key is present — (nil, true) is returned and the entry is left alone -/
+theorem present_nil_is_present (s : State) (k v : Int) :
+    let s1 := (GV.NoSync.step s (.mapStore k 0)).1
+    GV.NoSync.step s1 (.mapLoadOrStore k v) = (s1, .ok (.loaded (some 0) true)) :=
+  GV.Proofs.NoSyncMap.present_nil_is_present s k v
+
+/-- the presence test `actual != nil` instead of comma-ok does NOT refine the abstract map (witness:
+    `Store(10, nil); LoadOrStore(10, 5)`) -/
+theorem ne_nil_test_counterexample :
+    (GV.Proofs.NoSyncMap.loadOrStoreNeNil (GV.NoSync.step {} (.mapStore 10 0)).1 10 5).2 ≠
+      .ok (GV.Proofs.NoSyncMap.absStep (GV.Proofs.NoSyncMap.absStep (fun _ => none) (.store 10 0)).1 (.loadOrStore 10 5)).2 :=
+  GV.Proofs.NoSyncMap.ne_nil_test_counterexample
 
 /-- `Pool.Get` returns New()/nil on an empty pool, else an item that was Put and not yet handed out (and removes it) -/
 theorem pool_get_allowed (s : State) (new : Option Int) :
